@@ -119,6 +119,7 @@ def evaluate(ctx, cases):
             meta.append(c)
     outs = ctx.driver.run(reqs, jobs=ctx.jobs)
     tmap = {id(c): m["wt"] for c, m in zip(meta, outs)}
+    gmap = {id(c): m for c, m in zip(meta, outs)}
     for c in cases:
         if c["kind"] == "tree":
             wt = tmap[id(c)]
@@ -129,6 +130,11 @@ def evaluate(ctx, cases):
             ctx.case(text, True, sample={"query": text, "rfc_well_typed": wt, "compiled": ok})
             ctx.count(f"tree:wt={wt}")
             inp = {"text": text, "ast": c["ast"]}
+            g = gmap[id(c)]
+            if g["gate"] != ok:
+                ctx.mismatch("gate", inp, ok, g["gate"])
+            if g["scope"] and g["gate"] != wt:
+                ctx.violation("gate model differs from the RFC typing judgment (proof obligation gate_iff_wt)", inp, g["gate"], wt)
             if wt and not ok:
                 ctx.violation("a query that is well-formed and well-typed under RFC 9535 must compile", inp, o, "compiles")
             if not wt and ok:
